@@ -336,6 +336,8 @@ func runC11(p *core.Program, r *core.Report) {
 
 	// ---------- R11.5 token values are pieces of the password string itself
 	checkDecodedValuesArePieces(p, r, dec)
+	// ---------- R11.2 the classification looks at every token
+	checkKindHelpers(p, r, kindFn)
 
 	// ---------- R11.3 full layout offsets
 	checkFullLayout(p, r, enc, dec)
@@ -782,6 +784,39 @@ func checkAlternatingParity(p *core.Program, r *core.Report, dec *ssa.Function) 
 			decMap[par] = t
 		}
 	})
+	// yes is said only after every position was looked at: the `return true` lies behind the
+	// exit of a full sweep of the tokens, every other return is `false`
+	for _, ret := range core.Returns(alt) {
+		if len(ret.Results) != 1 {
+			continue
+		}
+		c, isC := ret.Results[0].(*ssa.Const)
+		if !isC || c.Value == nil {
+			r.Unrecognised("R11.3", core.FuncName(alt), "the alternation predicate returns constant verdicts", p.InstrPos(ret), core.Describe(ret.Results[0]))
+			continue
+		}
+		if c.Value.String() != "true" {
+			continue
+		}
+		okAfter := false
+		for _, l := range core.Loops(alt) {
+			var exit *ssa.BasicBlock
+			if ri, isR := core.AsRange(l); isR && ri.Kind == "slice" && core.StripType(ri.X) == ssa.Value(alt.Params[0]) {
+				exit = ri.Exit
+			} else if cnt, isC := core.AsCounted(l); isC && cnt.Step == 1 && cnt.Op == token.LSS {
+				if z, isZ := core.ConstInt(cnt.Init); isZ && z == 0 {
+					if x, isLen := core.LenOf(cnt.Bound); isLen && core.StripType(x) == ssa.Value(alt.Params[0]) {
+						exit = cnt.Exit
+					}
+				}
+			}
+			if exit != nil && !l.Blocks[ret.Block()] && (exit == ret.Block() || exit.Dominates(ret.Block())) {
+				okAfter = true
+			}
+		}
+		r.Check(okAfter, "R11.3", core.FuncName(alt), "the alternation predicate says yes only after a full sweep of the tokens", p.InstrPos(ret),
+			"a `true` on an early path classifies sequences as alternating whose types the decoder will then assign wrongly")
+	}
 	// the size clause needs the converse too: a sequence A S A … A must be classified as
 	// alternating, so every `return false` of the predicate has a reason that rules that out
 	for _, ret := range core.Returns(alt) {
@@ -1000,4 +1035,134 @@ func checkDecodedValuesArePieces(p *core.Program, r *core.Report, dec *ssa.Funct
 		}
 	}
 	r.Floor("R11.5", "exported accessors of Token", nAcc, 2)
+}
+
+// checkKindHelpers: every helper Kind() consults looks at all the tokens (a loop
+// over the receiver covers it from the first to the last element), and the length
+// it compares with 1 is the maximum token length.
+func checkKindHelpers(p *core.Program, r *core.Report, kindFn *ssa.Function) {
+	seen := map[*ssa.Function]bool{}
+	var helpers []*ssa.Function
+	var walk func(f *ssa.Function, d int)
+	walk = func(f *ssa.Function, d int) {
+		if f == nil || seen[f] || d > 4 || !p.InLib(f) || f.Blocks == nil {
+			return
+		}
+		seen[f] = true
+		helpers = append(helpers, f)
+		for _, c := range core.Calls(f) {
+			walk(core.StaticCallee(c), d+1)
+		}
+	}
+	walk(kindFn, 0)
+	nLoops := 0
+	for _, f := range helpers {
+		if len(f.Params) == 0 || f.Signature.Recv() == nil || core.NamedOf(f.Signature.Recv().Type()) != core.ModulePath+".Tokens" {
+			continue
+		}
+		recv := ssa.Value(f.Params[0])
+		for _, l := range core.Loops(f) {
+			nLoops++
+			full := false
+			if ri, ok := core.AsRange(l); ok && ri.Kind == "slice" {
+				full = core.StripType(ri.X) == recv
+			} else if cnt, ok := core.AsCounted(l); ok && cnt.Step == 1 && cnt.Op == token.LSS {
+				if z, isZ := core.ConstInt(cnt.Init); isZ && z == 0 {
+					if x, isLen := core.LenOf(cnt.Bound); isLen && core.StripType(x) == recv {
+						full = true
+					}
+				}
+			}
+			r.Check(full, "R11.2", core.FuncName(f), "the classification helper sweeps all the tokens (first to last)", p.InstrPos(l.Header.Instrs[0]),
+				"a token left out of the classification can have a type or length the chosen index kind cannot represent")
+		}
+	}
+	r.Floor("R11.2", "token sweeps in Kind() and its helpers", nLoops, 2)
+	// the length compared with 1 is the maximum
+	for _, c := range core.Calls(kindFn) {
+		cv, ok := c.(*ssa.Call)
+		if !ok {
+			continue
+		}
+		f := core.StaticCallee(cv)
+		if f == nil || !p.InLib(f) || f.Blocks == nil || f.Signature.Results().Len() != 1 || f.Signature.Results().At(0).Type().String() != "int" {
+			continue
+		}
+		cmp1 := false
+		for _, ref := range core.Referrers(cv) {
+			if bo, ok := ref.(*ssa.BinOp); ok {
+				if k, isC := core.ConstInt(bo.Y); isC && k == 1 && (bo.Op == token.EQL || bo.Op == token.NEQ || bo.Op == token.LEQ || bo.Op == token.GTR) {
+					cmp1 = true
+				}
+			}
+		}
+		if !cmp1 {
+			continue
+		}
+		for _, ret := range core.Returns(f) {
+			ok, why := isMaxAccumulator(p, ret.Results[0])
+			r.Check(ok, "R11.2", core.FuncName(f), "the length Kind() compares with 1 is the maximum token length", p.InstrPos(ret), why)
+		}
+	}
+}
+
+// isMaxAccumulator: v = phi(c0 <= 1, …) over a loop where every update stores a
+// length L under the guard L > phi (or >=).
+func isMaxAccumulator(p *core.Program, v ssa.Value) (bool, string) {
+	phi, ok := v.(*ssa.Phi)
+	if !ok {
+		return false, "result is not a loop accumulator: " + core.Describe(v)
+	}
+	var check func(e ssa.Value, from *ssa.BasicBlock, d int) (bool, string)
+	check = func(e ssa.Value, from *ssa.BasicBlock, d int) (bool, string) {
+		if d > 4 {
+			return false, "too deep"
+		}
+		if e == ssa.Value(phi) {
+			return true, ""
+		}
+		if k, isC := core.ConstInt(e); isC {
+			if k <= 1 && k >= 0 {
+				return true, ""
+			}
+			return false, fmt.Sprintf("initial value %d", k)
+		}
+		if inner, isPhi := e.(*ssa.Phi); isPhi && inner != phi {
+			for i, ie := range inner.Edges {
+				if ok, why := check(ie, inner.Block().Preds[i], d+1); !ok {
+					return false, why
+				}
+			}
+			return true, ""
+		}
+		if unitOf(p, e, 0) == "" {
+			return false, "updated with something that is not a token length: " + core.Describe(e)
+		}
+		// guard L > phi on the path
+		gs := append([]core.Guard{}, core.Guards(from)...)
+		if len(from.Succs) == 2 {
+			for si := range from.Succs {
+				if g, has := core.EdgeCond(from, si); has {
+					_ = g
+				}
+			}
+		}
+		for _, g := range gs {
+			if rel, isRel := core.AsRel(g); isRel {
+				if rel.X == e && rel.Y == ssa.Value(phi) && (rel.Op == token.GTR || rel.Op == token.GEQ) {
+					return true, ""
+				}
+				if rel.Y == e && rel.X == ssa.Value(phi) && (rel.Op == token.LSS || rel.Op == token.LEQ) {
+					return true, ""
+				}
+			}
+		}
+		return false, "the length is stored without the test `l > max`"
+	}
+	for i, e := range phi.Edges {
+		if ok, why := check(e, phi.Block().Preds[i], 0); !ok {
+			return false, why
+		}
+	}
+	return true, ""
 }
